@@ -1334,6 +1334,13 @@ def handle_deref_lifetime(ctx, rid, classes, floor=1):
                 if h is None or not handle_class(h.get("t", "")):
                     continue
                 n += 1
+                hu = unwrap(f, h)
+                if hu is not None and hu["k"] in ("ArraySubscriptExpr",) or \
+                        (hu is not None and hu["k"] == "CXXOperatorCallExpr" and hu.get("op") == "[]"):
+                    # an element of an array / container OF handles: the lock analysis names lock objects, not elements
+                    ctx.unknown("%s: %s dereferences an element of a collection of handles; whether that element still holds its lock "
+                                "is not tracked" % (rid, f.loc(st)))
+                    continue
                 key = la.key_of_expr(h)
                 pos = f.pos_of(st)
                 v = la.state_at(pos).get(key) if pos else None
